@@ -209,7 +209,7 @@ func GenGenesis(t *rapid.T, p *Profile) lab.GenesisCfg {
 		StreamFee: pick(t, []string{"0.01", "0", "1", "0.000000000000000001", "0.5", "0.123456789012345678", "0.24"}, "streamFee"),
 		MaxGas:    -1,
 	}
-	nG := uniRange(t, 0, 5, "nGrants")
+	nG := uniRange(t, 0, 10, "nGrants")
 	for i := 0; i < nG; i++ {
 		a := uniRange(t, 0, n-1, "granter")
 		b := uniRange(t, 0, n-1, "grantee")
